@@ -99,9 +99,9 @@ package nodeutil
 // (RFC 7951: the module that defines the node, not the module at the root of the tree)
 //@ func fqkGet(m meta.Definition, container map[string]interface{}) (interface{}, bool)
 //@   mode int
-//@   property C04 C15
-//@   maypanic
-//@   requires m != nil
+//@   property C04 C15 C13
+//@   requires solid(m)
+//@   assigns nothing
 //@   check [definingModule] mod == nil || mod == origModOf(m)
 //@ func (wtr *JSONWtr) ident(p *node.Path) string
 //@   mode int
@@ -109,3 +109,47 @@ package nodeutil
 //@   maypanic
 //@   requires wtr != nil && p != nil
 //@   check [definingModule] thisMod == origModOf(p.Meta)
+
+// ---- C13: the JSON reader never crashes on the shape of the document ------------------------------------------------
+// whatever JSON value sits where the schema expects an object, an array or a scalar, the reader answers with an
+// error (or "nothing there"), not with a failed type assertion or an index out of range. Writing to a reader is an
+// API misuse, not request content (requires !r.New / !r.Write).
+// schema accessors and value printing have no effect on anything (abstractions used inside this package only)
+//@ interface meta.Definition.Ident() string
+//@   assigns nothing
+//@ interface meta.Leafable.Ident() string
+//@   assigns nothing
+//@ interface meta.HasDataDefinitions.Ident() string
+//@   assigns nothing
+//@ interface val.Value.String() string
+//@   assigns nothing
+//@ func JsonContainerReader$2(r node.ChildRequest) (node.Node, error)
+//@   mode int
+//@   property C13
+//@   requires !r.New && solid(r.Meta)
+//@ func JsonContainerReader$3(r node.FieldRequest, hnd *node.ValueHandle) error
+//@   mode int
+//@   property C13
+//@   requires !r.Write && solid(r.Meta) && hnd != nil
+//@ func JsonContainerReader$4(r node.ListRequest) (node.Node, []val.Value, error)
+//@   mode int
+//@   property C13
+//@   requires r.Meta != nil && s != nil
+// (rows are counted from the start row of the request, which the query parser only ever makes non-negative)
+//@ func JsonListReader$1(r node.ListRequest) (node.Node, []val.Value, error)
+//@   mode int
+//@   property C13
+//@   requires !r.New && r.Meta != nil && r.Row >= 0
+//@   requires forall k int :: 0 <= k && k < len(r.Key) ==> solid(r.Key[k])
+//@   loop 1 invariant 0 <= i && i <= len(list)
+//@   loop 1 decreases len(list) - i
+//@   loop 2 invariant -1 <= rangeindex && rangeindex < len(keyData)
+//@   loop 2 decreases len(keyData) - rangeindex
+//@ func jsonKeyMatches(keyFields []meta.Leafable, candidate map[string]interface{}, key []val.Value) bool
+//@   mode int
+//@   property C13
+//@   assigns nothing
+//@   requires forall k int :: 0 <= k && k < len(key) ==> solid(key[k])
+//@   requires forall k int :: 0 <= k && k < len(keyFields) ==> solid(keyFields[k])
+//@   loop 1 invariant -1 <= rangeindex && rangeindex < len(keyFields)
+//@   loop 1 decreases len(keyFields) - rangeindex
